@@ -346,8 +346,21 @@ func TestC03Runs(t *testing.T) {
 		limit := uint64(r.Range(1, 400))
 		conc := int(kit.Pick(r, 1, 2, 8, 32, 100))
 		ob := &obs{live: map[*f1testing.T]bool{}}
+		var idChanged atomic.Int64
 		scenario := func(*f1testing.T) f1testing.RunFn {
-			return func(t *f1testing.T) { ob.enter(t); ob.leave(t) }
+			return func(t *f1testing.T) {
+				ob.enter(t)
+				if mode == "file" {
+					// the invocation observes ONE id: read it again after the next stage has started
+					before := t.Iteration
+					id, _ := strconv.ParseInt(before, 10, 64)
+					time.Sleep(time.Duration(id%4) * 20 * time.Millisecond)
+					if t.Iteration != before {
+						idChanged.Add(1)
+					}
+				}
+				ob.leave(t)
+			}
 		}
 		// every profile requests far more than the limit within the first second, so the
 		// limit is what ends the run
@@ -389,6 +402,9 @@ func TestC03Runs(t *testing.T) {
 		if out.Err != nil || out.Result == nil {
 			o.Fail("c03-run-error", "run failed ("+mode+")")
 			continue
+		}
+		if idChanged.Load() > 0 {
+			o.Fail("iteration-id-changed-during-invocation", "file run, limit "+strconv.FormatUint(limit, 10)+", concurrency "+strconv.Itoa(conc)+": "+strconv.FormatInt(idChanged.Load(), 10)+" invocation(s) saw T.Iteration change while they were executing (iterations of 0-60ms outliving their stage)")
 		}
 		ids := ob.idsDesc()
 		// the trigger keeps requesting until the limit stops it whenever the run ended early
